@@ -11,7 +11,6 @@ import (
 
 func init() { register("C01", checkC01) }
 
-
 // Day-rate table B.1: quantities defined once per day (amount per day) and
 // consumed in sub-step scope.  Reasons in DESIGN.md Appendix B.1.
 var dayRatesWater = map[string]string{
